@@ -148,6 +148,7 @@ type gen struct {
 	epochs map[string]*epochInfo
 	callSeq  int
 	roCondTerm string
+	pendingBindings []closureBinding
 	captured []string            // refs of heap cells captured by closures made in this function (any call may run them)
 	private  map[*ssa.Alloc]bool // heap allocations of this function that unknown code can never reach
 	ghostCalls []ghostCall
@@ -281,6 +282,12 @@ func (g *gen) heapVar(st *state, name, sort string) string {
 		return v
 	}
 	isArr := strings.HasPrefix(sort, "(Array Int")
+	if ep.keep != nil && isGhostVar(name) {
+		// ghost state is never touched by calls or havocs: same variable as before the epoch
+		pv := g.heapVar(ep.parents[0].st, name, sort)
+		g.epochVars[key] = pv
+		return pv
+	}
 	if ep.keep != nil {
 		pv := g.heapVar(ep.parents[0].st, name, sort)
 		if isArr {
@@ -371,6 +378,10 @@ type parentLink struct {
 	cond string
 }
 
+func isGhostVar(name string) bool {
+	return strings.HasPrefix(name, "GHOST.") || strings.HasPrefix(name, "ITER.") || strings.HasPrefix(name, "IT.")
+}
+
 // newEpoch starts a new heap epoch in st whose variables relate to the pre-state through keep.
 func (g *gen) newEpoch(st *state, keep0 func(name, r string) string, allocates bool) *state {
 	keep := keep0
@@ -401,6 +412,10 @@ func (g *gen) newEpoch(st *state, keep0 func(name, r string) string, allocates b
 	g.epochs[e] = &epochInfo{parents: []parentLink{{pre, "true"}}, keep: keep}
 	nh := map[string]string{}
 	for name, v := range st.heap {
+		if isGhostVar(name) {
+			nh[name] = v // ghost state is only changed by the generator itself
+			continue
+		}
 		srt := g.heapSorts[name]
 		if strings.HasPrefix(srt, "(Array Int") {
 			if k := keep(name, "r"); k == "weak" || k == "true" {
@@ -615,9 +630,6 @@ func (g *gen) privateAnalysis() {
 			if !ok || !a.Heap || a.Referrers() == nil {
 				continue
 			}
-			if _, isStruct := deref(a.Type()).Underlying().(*types.Struct); !isStruct {
-				continue
-			}
 			priv := true
 			for _, r := range *a.Referrers() {
 				switch u := r.(type) {
@@ -625,6 +637,10 @@ func (g *gen) privateAnalysis() {
 				case *ssa.UnOp:
 				case *ssa.Store:
 					if u.Val == ssa.Value(a) {
+						priv = false
+					}
+				case *ssa.MakeClosure:
+					if closureEscapes(u) {
 						priv = false
 					}
 				case *ssa.Call:
